@@ -47,7 +47,7 @@ pub fn install_panic_hook() {
             .map(|l| format!("{}:{}", l.file(), l.line()))
             .unwrap_or_default();
         if std::env::var_os("VERIF_BACKTRACE").is_some() {
-            eprintln!("panic: {msg} @ {loc}\n{}", std::backtrace::Backtrace::force_capture());
+            let _ = writeln!(std::io::stderr(), "panic: {msg} @ {loc}\n{}", std::backtrace::Backtrace::force_capture());
         }
         let _ = LAST_PANIC.try_with(|p| *p.borrow_mut() = Some(format!("{msg} @ {loc}")));
     }));
@@ -464,7 +464,8 @@ pub const HARNESS_ERROR_EXIT: i32 = 2;
 
 /// Report a failure of the harness itself and leave with `HARNESS_ERROR_EXIT`.
 pub fn harness_error(what: &str) -> ! {
-    eprintln!("harness error: {what}");
+    // (no eprintln!: it panics when stderr is not writable, which some scenarios arrange on purpose)
+    let _ = writeln!(std::io::stderr(), "harness error: {what}");
     std::process::exit(HARNESS_ERROR_EXIT)
 }
 
